@@ -458,9 +458,9 @@ pub fn run(tier: Tier, seed: u64) -> ! {
     let mut rep = Report::new("C06", tier, seed, "fault_enumeration");
     rep.rule = "per history (direct-API mutations, checkpoints, rotations incl. size-triggered, syncs, optional close; every durability mode) the WAL directory bytes, per-file fsync coverage (wal.sync hook events) and the reference state are recorded after every step; crash images per instant: all written bytes, only synced bytes, each file alone cut to its synced length, cuts at and inside the last three records of every file (torn length prefix / payload / checksum), old checkpoint.meta with complete or torn .tmp, freshly rotated file absent, single-bit flips in record payload/checksum. Each image is opened with the real engine: open must succeed, the dump must be a prefix state no older than the last sync/checkpoint/close (any prefix for corruption), and a quarter of the images are continued (write, close, reopen: the new writes must be there, ids must not collide). non-trivial image = cut strictly inside a record, metadata mid-update, per-file loss, or bit flip; distinct by (history, instant, cuts, flip)".into();
     let rules = Rules::from_findings(&rep.findings);
-    let n = tier.pick(12, 1200);
+    let n = tier.pick(12, 100);
     for case in 0..n {
-        run_history(&mut rep, rules, seed, case, tier.pick(12, 30), tier.pick(24, 200));
+        run_history(&mut rep, rules, seed, case, tier.pick(12, 24), tier.pick(24, 80));
     }
     rep.assumptions = vec![
         "crash model: per-file prefix between fsynced and written length + rename atomicity of checkpoint.meta; reordering of unsynced writes inside a file and directory-entry durability are not modelled".into(),
